@@ -669,7 +669,17 @@ pub fn g_cf(ch: &mut Chooser, opts: &CfOpts) -> CfProg {
                 // >= 2^32 with valid low bits
                 let t = ch.below(nblocks);
                 push_cond(&mut p);
-                p.b.ins.push(Ins::PushLabelHigh(block_labels[t]));
+                if ch.chance(1, 3) {
+                    p.b.ins.push(Ins::PushLabelHigh(block_labels[t]));
+                } else {
+                    // any bit from 32 up may be the one that makes the target invalid
+                    let bit = *ch.pick(&[32u32, 33, 40, 63, 64, 65, 96, 127, 128, 160, 200, 255]);
+                    let mut high = W::pow2(bit);
+                    if ch.chance(1, 3) {
+                        high = high.add(W::pow2(ch.range(32, 255) as u32));
+                    }
+                    p.b.ins.push(Ins::PushLabelPlus(block_labels[t], high));
+                }
                 p.b.depth += 1;
                 emit_jump(&mut p, ch);
                 p.features.push(if via_jumpi { "jumpi:high-bits" } else { "jump:high-bits" });
